@@ -25,6 +25,7 @@ func c02(thorough bool, yield func(Program), full bool) {
 		C02Multi(4, yield)
 	}
 	C02Events(yield)
+	C02Width(yield)
 	if full {
 		C02Failed(yield)
 		C02Host(yield)
